@@ -322,6 +322,16 @@ static void free_msg(struct evmsg *m)
 {
 	for (int i = 0; i < m->parts; i++) vf_xfree(m->part[i], m->plen[i]);
 }
+/* index of a PRNG-chosen live registration, or -1 */
+static int pick_live(vf_rng *r, int limit)
+{
+	int n = 0, k;
+	for (int i = 0; i < limit; i++) n += model[i] != 0;
+	if (!n) return -1;
+	k = (int) vf_below(r, (uint32_t) n);
+	for (int i = 0; i < limit; i++) if (model[i] && !k--) return i;
+	return -1;
+}
 static void make_plan(vf_rng *r)
 {
 	static const int errs[] = { -1, -2, -3, -4, -16, -17, -128 };
@@ -333,6 +343,7 @@ static void make_plan(vf_rng *r)
 	plan_idmode = (int) vf_below(r, 8);
 	if (plan_idmode > 2) plan_idmode = 0;
 	plan_newid = dom[vf_below(r, NMSGID + NWORD + 4)];
+	if (vf_chance(r, 2, 3)) { int k = pick_live(r, NDOM); if (k >= 0) plan_newid = dom[k]; }
 	vf_fp_u64((uint64_t) (uint32_t) plan_ret); vf_fp_u64((uint64_t) plan_idmode);
 }
 /* compare result + default bookkeeping of an emit that reached a harness handler */
@@ -363,6 +374,12 @@ static int command_bytes(vf_rng *r, uint8_t *dst, int *word, int *sep)
 	int w = (int) vf_below(r, NWORD), n = 0;
 	int s = vf_chance(r, 1, 2) ? 0 : ' ';
 	const char *rest = vf_chance(r, 1, 2) ? "" : "arg1";
+	if (vf_chance(r, 1, 2)) {
+		/* prefer a word that has a registration */
+		int cand[NWORD], nc = 0;
+		for (int i = 0; i < NWORD; i++) if (model[NMSGID + i]) cand[nc++] = i;
+		if (nc) w = cand[vf_below(r, (uint32_t) nc)];
+	}
 	dst[n++] = MPT_MESGTYPE(Command);
 	dst[n++] = (uint8_t) s;
 	if (s && vf_chance(r, 1, 4)) dst[n++] = ' ';      /* leading blank is skipped for blank separators */
@@ -392,14 +409,15 @@ static void op_emit(vf_rng *r, char *d, size_t dn)
 	if (form < 4) {
 		/* explicit id */
 		di = (int) vf_below(r, vf_chance(r, 3, 4) ? NMSGID + NWORD : NDOM);
+		if (vf_chance(r, 3, 5)) { int k = pick_live(r, NDOM); if (k >= 0) di = k; }
 		id = dom[di];
 		ev.id = id;
 		snprintf(d, dn, " emit(id=%#" PRIxPTR ")", id);
 	} else if (form < 7) {
 		/* message: first byte is the id */
 		di = (int) vf_below(r, NMSGID);
+		if (vf_chance(r, 3, 5)) { int k = pick_live(r, NMSGID); if (k >= 0) di = k; }
 		id = dom[di];
-		if (id > 0xff) { di = 0; id = dom[0]; }
 		bytes[blen++] = (uint8_t) id;
 		blen += vf_below(r, 6);
 		for (size_t i = 1; i < blen; i++) bytes[i] = (uint8_t) (0x40 + i);
@@ -816,7 +834,7 @@ static void case_reserve(vf_rng *r)
 	vf_sample("%s clear  => %d reservations%s", desc, nres, wrapped ? ", ids wrapped around the width" : "");
 }
 
-uint64_t vf_cases(void) { return vf_thorough ? 1000000 : 30000; }
+uint64_t vf_cases(void) { return vf_thorough ? 1000000 : 100000; }
 
 void vf_case(uint64_t idx, vf_rng *r)
 {
